@@ -285,7 +285,20 @@ def run_lines(case):
         ck.add(f)
     else:
         ck.check(bool(cp) == (cls != "skew"), f"lines:is_coplanar:{cls}", bool(cp))
-    for name, op in (("join", join), ("meet", meet)):
+    # round 16: the same two lines also as elements taken out of the covariant form of a collection and converted back
+    # (collection -> covariant_tensor -> [i] -> contravariant_tensor): the same line, so the same outcome of every operation
+    def _via_covariant(x, i):
+        coll = G.LineCollection(np.stack([x.array, x.array * 2.0][::1 if i else -1]))
+        return coll.covariant_tensor[i].contravariant_tensor
+
+    l2, f = call("lines:covariant-element", lambda: (_via_covariant(l, 0), _via_covariant(m, 1)))
+    if f:
+        ck.add(f)
+        pairs = [("", l, m)]
+    else:
+        pairs = [("", l, m), ("covariant-element:", l2[0], l2[1]), ("covariant-element-first:", l2[0], m)]
+    for tag, name, op, l, m in [(t, n, o, x, y) for (t, x, y) in pairs for (n, o) in (("join", join), ("meet", meet))]:
+        name = tag + name
         try:
             res = op(l, m)
         except NotCoplanar:
@@ -301,15 +314,15 @@ def run_lines(case):
             ck.add(Fail("NO_RAISE", f"lines:{name}:{cls}", C.short(res.array.tolist())))
             continue
         pts = [[Fraction(x) for x in v] for v in (a1, a2, b1, b2)]
-        if name == "join":
+        if name.endswith("join"):
             rows, piv = X.rref(pts)
             exp = X.cofactor_hyperplane(rows[:3])
-            ck.check(isinstance(res, G.Plane) and C.peq_all(res.array, C.to_c(exp)), "lines:join:value", C.short(res.array.tolist()))
+            ck.check(isinstance(res, G.Plane) and C.peq_all(res.array, C.to_c(exp)), f"lines:{tag}join:value", C.short(res.array.tolist()))
         else:
             e1 = X.null_space(pts[:2])
             e2 = X.null_space(pts[2:])
             ns = X.null_space(e1 + e2)
-            ck.check(isinstance(res, G.Point) and len(ns) == 1 and C.peq_all(res.array, C.to_c(ns[0])), "lines:meet:value", C.short(res.array.tolist()))
+            ck.check(isinstance(res, G.Point) and len(ns) == 1 and C.peq_all(res.array, C.to_c(ns[0])), f"lines:{tag}meet:value", C.short(res.array.tolist()))
     return ck.result()
 
 
